@@ -32,14 +32,16 @@ def result_ops(R):
         v = R.choice([0, 1])
         return ['RBOOL:%d' % v], str(v).encode()
     if k == 'text':
-        t = bytes(R.choice(b'ab"\' ;,') for _ in range(R.randint(1, 6)))
-        return ['RTEXT:' + vf.hx(t)], spec.fmt_text(t)
+        t = bytes(R.choice(b'ab"\' ;,') for _ in range(R.randint(0, 6)))
+        return ['RTEXT:' + vf.hx(t) if t else 'RTEXT'], spec.fmt_text(t)
     if k == 'chars':
         t = bytes(R.choice(b'abXY1') for _ in range(R.randint(1, 5)))
         return ['RCHARS:' + vf.hx(t)], t
-    d = bytes(R.choice(b'\x00\n;,"a#\xff') for _ in range(R.randint(1, 9)))
+    d = bytes(R.choice(b'\x00\n;,"a#\xff') for _ in range(R.choice([0, 0, 1, 2, 3, 5, 9])))
     if k == 'block':
-        return ['RBLOCK:' + vf.hx(d)], spec.fmt_block(d)
+        return ['RBLOCK:' + vf.hx(d) if d else 'RBLOCK'], spec.fmt_block(d)
+    if not d:
+        return ['RHDR:0'] + (['RDATA'] if True else []), spec.fmt_block(d)
     cuts = sorted(set(R.randint(0, len(d)) for _ in range(R.randint(0, 2))))
     ops = ['RHDR:%d' % len(d)]
     prev = 0
